@@ -175,7 +175,16 @@ def check_quantised(ctx, led, v, rule="C09.quantised"):
             "extra decimals can appear in scores()" % a,
         )
     # scores() applies only float()
+    n0 = len(om.ev.events)
     val, st, evs = om.call("scores")
+    for e in om.ev.events[n0:]:
+        if e.kind == "arith_after_float":
+            led.violation(
+                rule + ".out",
+                "%s::%s" % (e.func.qualname if e.func else "?", short(e.node)),
+                e.where(),
+                "floating-point arithmetic is applied to an already rounded score: the result need not have one decimal",
+            )
     items = list(val.items) if isinstance(val, TupleVal) else []
     f = ctx.repo.method(om.modname, om.clsname, "scores")
     for i, x in enumerate(items):
